@@ -263,23 +263,22 @@ fn lex_str_literal(lx: &mut Lexer<'_, Token>) -> Result<String, LexErr> {
         match mid {
             "\\" => {
                 // the next character is part of the escape:
-                let esc = right.as_bytes()
-                    .first()
-                    .unwrap_or_else(|| unreachable!("expected character after escape")); // there always has to be one, cause last character is not \
+                // (if there is none, the backslash ends the line, so the literal is unclosed)
+                let Some(esc) = right.chars().next() else { break };
                 match esc {
-                    b'n'  => buf.push('\n'),
-                    b'r'  => buf.push('\r'),
-                    b't'  => buf.push('\t'),
-                    b'\\' => buf.push('\\'),
-                    b'0'  => buf.push('\0'),
-                    b'"'  => buf.push('\"'),
-                    &c => {
+                    'n'  => buf.push('\n'),
+                    'r'  => buf.push('\r'),
+                    't'  => buf.push('\t'),
+                    '\\' => buf.push('\\'),
+                    '0'  => buf.push('\0'),
+                    '"'  => buf.push('\"'),
+                    c => {
                         buf.push('\\');
-                        buf.push(char::from(c));
+                        buf.push(c);
                     }
                 }
                 
-                remaining = &right[1..];
+                remaining = &right[esc.len_utf8()..];
             },
             "\"" => {
                 remaining = right;
